@@ -35,13 +35,18 @@ CONSTANTS N,        \* number of nodes below the root
 
 Nodes == 1..N
 Ids == [i \in 1..N |-> i]
-Children(n) == SelectSeq(Ids, LAMBDA c : Parent[c] = n)
+Kids == [n \in 0..N |-> SelectSeq(Ids, LAMBDA c : Parent[c] = n)]   \* evaluated once by TLC
+Children(n) == Kids[n]
 AltOf(n) == IF n = 0 THEN <<>> ELSE Alt[n]
-Pristine == [s \in Nodes |-> 0]
+RECURSIVE Zeros(_)
+Zeros(n) == IF n = 0 THEN <<>> ELSE Append(Zeros(n - 1), 0)
+Pristine == Zeros(N)
 
-RECURSIVE Anc(_, _)
-Anc(a, s) == IF s = 0 THEN FALSE
-             ELSE IF Parent[s] = a THEN TRUE ELSE Anc(a, Parent[s])
+RECURSIVE IsAnc(_, _)
+IsAnc(a, s) == IF s = 0 THEN FALSE
+               ELSE IF Parent[s] = a THEN TRUE ELSE IsAnc(a, Parent[s])
+AncPairs == {<<a, s>> \in Nodes \X Nodes : IsAnc(a, s)}                  \* evaluated once by TLC
+Anc(a, s) == <<a, s>> \in AncPairs        \* a is a proper ancestor of s
 
 (* a mutation is <<node, alternative>>; `remove_bad_mutations`: same node or *)
 (* one node among the descendants (`children`) of the other                  *)
@@ -73,14 +78,18 @@ NextAlt(g, F) ==
 (* the yield travels up through every enclosing `_generic_visit_*` frame; each *)
 (* writes `mutated_node` into the slot of the child it is visiting: the        *)
 (* replacement for the innermost one, the visited (snapshot) object above it   *)
-YieldWrites(stack, slot, nj) ==
-  LET k == Len(stack) IN
-  [x \in Nodes |->
-     IF k >= 2 /\ x = stack[k].n THEN nj
-     ELSE IF \E i \in 1..(k - 2) : stack[i + 1].n = x
-          THEN LET i == CHOOSE i \in 1..(k - 2) : stack[i + 1].n = x
-               IN stack[i].snap[stack[i].p]
-          ELSE slot[x]]
+\* (written with EXCEPT on tuples: TLC evaluates `[x \in S |-> e]` lazily, again at every use)
+RECURSIVE YieldUp(_, _, _, _)
+YieldUp(stack, slot, nj, i) ==
+  IF i < 1 THEN slot
+  ELSE YieldUp(stack,
+               [slot EXCEPT ![stack[i + 1].n] =
+                    IF i + 1 = Len(stack) THEN nj ELSE stack[i].snap[stack[i].p]],
+               nj, i - 1)
+YieldWrites(stack, slot, nj) == YieldUp(stack, slot, nj, Len(stack) - 1)
+
+RECURSIVE SnapOf(_, _, _)
+SnapOf(kids, slot, i) == IF i > Len(kids) THEN <<>> ELSE <<slot[kids[i]]>> \o SnapOf(kids, slot, i + 1)
 
 Step(g, stack, slot) ==
   LET k == Len(stack)
@@ -92,7 +101,7 @@ Step(g, stack, slot) ==
     IF nj # 0
     THEN [stack |-> [stack EXCEPT ![k].j = nj], slot |-> YieldWrites(stack, slot, nj), out |-> "yield"]
     ELSE [stack |-> [stack EXCEPT ![k].p = 1,
-                                  ![k].snap = [i \in 1..Len(kids) |-> slot[kids[i]]]],
+                                  ![k].snap = SnapOf(kids, slot, 1)],
           slot |-> slot, out |-> "run"]
   ELSE IF F.p > Len(kids) THEN
     IF k = 1 THEN [stack |-> <<>>, slot |-> slot, out |-> "done"]
@@ -129,15 +138,17 @@ PerOp(i, slot, acc) ==
   IF i > Len(OpSeq) THEN [lists |-> acc, slot |-> slot]
   ELSE LET d == Drain(WalkGen(OpSeq[i]), Fresh, slot, <<>>)
        IN PerOp(i + 1, d.slot, Append(acc, d.muts))
+\* on the untouched tree this is a constant (TLC evaluates it once)
+PerOpPristine == PerOp(1, Pristine, <<>>)
+PerOpAt(slot) == IF slot = Pristine THEN PerOpPristine ELSE PerOp(1, slot, <<>>)
 
 (* what a `finally: <write the old value back>` around each yield would do when the *)
 (* generator is closed at its yield (the suggested fix)                            *)
-Unwind(stack, slot) ==
-  [x \in Nodes |->
-     IF \E i \in 1..(Len(stack) - 1) : stack[i + 1].n = x
-     THEN LET i == CHOOSE i \in 1..(Len(stack) - 1) : stack[i + 1].n = x
-          IN stack[i].snap[stack[i].p]
-     ELSE slot[x]]
+RECURSIVE UnwindFrom(_, _, _)
+UnwindFrom(stack, slot, i) ==
+  IF i < 1 THEN slot
+  ELSE UnwindFrom(stack, [slot EXCEPT ![stack[i + 1].n] = stack[i].snap[stack[i].p]], i - 1)
+Unwind(stack, slot) == UnwindFrom(stack, slot, Len(stack) - 1)
 
 (* ----------------------------------------------------------------------- *)
 (* FirstOrderMutator._select_mutations                                      *)
